@@ -82,13 +82,18 @@ def recognise(data, depth=0, tolerate_mdc=False):
             i += 1
         if i != len(pk) - 1 or pk[i]['tag'] not in (9, 18):
             raise GrammarError('encrypted message must be ESK* followed by exactly one encrypted container: %r' % tags)
-        return {'kind': 'encrypted', 'esks': esks, 'container': pk[i], 'compression': None}
+        return {'kind': 'encrypted', 'esks': esks, 'container': pk[i], 'compression': None, 'prefix_sigs': [], 'ops': [], 'sigs': []}
     # signed / literal
     i = 0
     prefix = []
     while i < len(pk) and pk[i]['tag'] == 2:
         prefix.append(pk[i]['body'])
         i += 1
+    if prefix and i < len(pk) and pk[i]['tag'] in (1, 3, 9, 18, 8) and not (pk[i]['tag'] == 8 and False):
+        # Signature Packet, OpenPGP Message (11.3): old-style signatures in front of a complete message
+        inner = recognise(b''.join(p['raw'] for p in pk[i:]), depth + 1, tolerate_mdc)
+        inner['prefix_sigs'] = prefix + inner.get('prefix_sigs', [])
+        return inner
     ops = []
     while i < len(pk) and pk[i]['tag'] == 4:
         ops.append(parse_ops(pk[i]['body']))
